@@ -33,14 +33,25 @@ func (i *IRCServer) cmdServerSvsnick(s *Session, reply *Replyctx, msg *irc.Messa
 	// TODO(secure): kill this code duplication with cmdNick()
 	oldPrefix := session.ircPrefix
 	oldNick := NickToLower(msg.Params[0])
+	onlyCapsChanged := NickToLower(msg.Params[1]) == oldNick
+	if _, ok := i.nicks[NickToLower(msg.Params[1])]; ok && !onlyCapsChanged {
+		i.sendServices(reply, &irc.Message{
+			Prefix:  i.ServerPrefix,
+			Command: irc.ERR_NICKNAMEINUSE,
+			Params:  []string{"*", msg.Params[1], "Nickname is already in use"},
+		})
+		return
+	}
 	session.Nick = msg.Params[1]
 	i.nicks[NickToLower(session.Nick)] = session
-	delete(i.nicks, oldNick)
-	for _, c := range i.channels {
-		if modes, ok := c.nicks[oldNick]; ok {
-			c.nicks[NickToLower(session.Nick)] = modes
+	if !onlyCapsChanged {
+		delete(i.nicks, oldNick)
+		for _, c := range i.channels {
+			if modes, ok := c.nicks[oldNick]; ok {
+				c.nicks[NickToLower(session.Nick)] = modes
+			}
+			delete(c.nicks, oldNick)
 		}
-		delete(c.nicks, oldNick)
 	}
 	session.updateIrcPrefix()
 	i.sendServices(reply,
